@@ -1,5 +1,6 @@
 CONSTANTS MaxFiles = 4
  Flaw_HttpClosesNormally = FALSE
+ Flaw_MergesStaleDir = FALSE
  Emit = TRUE
 SPECIFICATION Spec
 INVARIANTS EmitCase
